@@ -50,7 +50,10 @@ def jsoncopy(o):
     raise NotJson(type(o).__name__)
 
 
-def make_wb(f_group_rel: bool, f_extra: bool, f_trans: bool, f_params: bool, f_repeat: bool, f_settings: bool, T):
+XCOLS = ["xa", "parent", "extra_data"]
+
+
+def make_wb(f_group_rel: bool, f_extra: bool, f_trans: bool, f_params: bool, f_repeat: bool, f_settings: bool, T, xcol=0, f_override=False):
     rows = []
     g = {"type": "begin group", "name": "g", "label": T[0]}
     if f_group_rel:
@@ -71,20 +74,26 @@ def make_wb(f_group_rel: bool, f_extra: bool, f_trans: bool, f_params: bool, f_r
         rows += [{"type": "begin repeat", "name": "r", "label": "R", "relevant": T[8]}, {"type": "integer", "name": "u", "label": "U"}, {"type": "end repeat"}]
     ch = {"list_name": "l1", "name": "a", "label": T[9]}
     if f_extra:
-        ch["xa"] = T[10]
+        ch[XCOLS[xcol]] = T[10]
+    if f_override:
+        # rows that override a key of their question-type defaults
+        rows.append({"type": "range", "name": "rg", "label": "R", "parameters": "start=0.5 end=5 step=0.5"})
+        rows.append({"type": "note", "name": "nt", "label": "N", "read_only": "no"})
+        rows.append({"type": "calculate", "name": "cc", "calculation": "1", "bind::type": "int"})
     wb = {"survey": rows, "choices": [ch, {"list_name": "l1", "name": "b", "label": "B"}]}
     if f_settings:
         wb["settings"] = [{"form_title": T[11], "version": "3", "style": "pages", "instance_name": "concat('x')"}]
     return wb
 
 
-def c16_roundtrip(f_group_rel: bool, f_extra: bool, f_trans: bool, f_params: bool, f_repeat: bool, f_settings: bool, c0: int) -> bool:
+def c16_roundtrip(f_group_rel: bool, f_extra: bool, f_trans: bool, f_params: bool, f_repeat: bool, f_settings: bool, f_override: bool, xcol: int, c0: int) -> bool:
     """
+    vpre: 0 <= xcol <= 2
     vpre: 33 <= c0 <= 126 and c0 != 36
     vpost: _ == True
     """
     T = [S(c0, 65 + i) for i in range(12)]
-    wb = make_wb(f_group_rel, f_extra, f_trans, f_params, f_repeat, f_settings, T)
+    wb = make_wb(f_group_rel, f_extra, f_trans, f_params, f_repeat, f_settings, T, xcol, f_override)
     survey, _w, js = build_survey(wb)
     t1 = tree(survey.xml())
     # a: workbook JSON is JSON-typed and reloads to the same XForm
@@ -111,7 +120,46 @@ specialise(
     timeout=500,
     kernel=K,
     shims=("S1", "S2", "S3", "S4"),
-    symbolic="presence of translations, parameters, a repeat with relevant, a settings sheet (4 symbolic booleans); all 12 cell texts share one symbolic tracer character",
+    symbolic="presence of translations, parameters, a repeat with relevant, a settings sheet, rows overriding question-type defaults (5 symbolic booleans), name of the extra choices column (symbolic index over xa/parent/extra_data); all 12 cell texts share one symbolic tracer character",
     bounds="form: group(select_one with hint) + text with default/custom bind/constraint message (+ repeat); group relevant and extra choice column presence fixed per instance",
     weight=150,
+)
+
+
+
+def c16_search_reload(after_xml: bool, c0: int) -> bool:
+    """
+    vpre: 33 <= c0 <= 126 and c0 != 36
+    vpost: _ == True
+    """
+    wb = {
+        "survey": [{"type": "select_one l1", "name": "q", "label": S(c0, 65), "appearance": "search('mydata')"}],
+        "choices": [{"list_name": "l1", "name": "a", "label": "A"}],
+    }
+    survey, _w, _js = build_survey(wb)
+    t1 = None
+    if after_xml:
+        t1 = tree(survey.xml())
+    j1 = survey.to_json_dict()
+    s2 = create_survey_element_from_dict(jsoncopy(j1))
+    shims.s3_prefill_xpath(s2)
+    t2 = tree(s2.xml())
+    if t1 is None:
+        t1 = tree(survey.xml())
+    return t1 == t2
+
+
+specialise(
+    "C16",
+    "b.survey-json-search",
+    c16_search_reload,
+    {"after_xml": [True]},
+    timeout=200,
+    kernel=K + ("pyxform.survey:Survey._redirect_is_search_itext",),
+    shims=("S1", "S2", "S3", "S4"),
+    symbolic="label tracer character",
+    bounds="a select_one with a search() appearance dumped after the XForm was generated; expected to reproduce known finding F18",
+    weight=20,
+    expect="known",
+    classifier=lambda call, replay: "F18" if (replay.get("exception") or {}).get("type") in ("KeyError", "PyXFormError", "TypeError") else None,
 )
